@@ -3647,6 +3647,40 @@ async fn main() -> anyhow::Result<()> {
         }
     } else {
         if config.persistence.enable_recovery {
+            // A missing MANIFEST next to WAL segments or snapshots is a damaged data
+            // directory, not a new database: starting empty would silently drop every
+            // document those files hold (and the next snapshot would make it permanent).
+            let leftover_data_files: Vec<String> = std::fs::read_dir(&data_dir_path)
+                .map(|entries| {
+                    entries
+                        .flatten()
+                        .filter_map(|entry| entry.file_name().into_string().ok())
+                        .filter(|name| {
+                            (name.starts_with("wal_") && name.ends_with(".wal"))
+                                || (name.starts_with("snapshot_") && name.ends_with(".snap"))
+                        })
+                        .collect()
+                })
+                .unwrap_or_default();
+            if !leftover_data_files.is_empty() {
+                if !config.persistence.allow_fresh_start_on_recovery_failure {
+                    anyhow::bail!(
+                        "No MANIFEST in {} but {} WAL/snapshot file(s) are present (e.g. {}); \
+                         refusing to start with an empty database. Restore the MANIFEST or a \
+                         backup, or set persistence.allow_fresh_start_on_recovery_failure=true \
+                         to discard the existing data",
+                        data_dir_path.display(),
+                        leftover_data_files.len(),
+                        leftover_data_files[0]
+                    );
+                }
+                warn!(
+                    data_dir = %data_dir_path.display(),
+                    leftover_files = leftover_data_files.len(),
+                    "No MANIFEST found next to existing WAL/snapshot files; \
+                     allow_fresh_start_on_recovery_failure=true, starting empty"
+                );
+            }
             info!(
                 data_dir = %data_dir_path.display(),
                 "No MANIFEST found; initializing a new empty database"
